@@ -19,7 +19,7 @@ from ..runs import describe_path, run_function
 from ..scenarios import core_impl, recv_sym
 from ..values import ARG, CLS, FRESH, IMM, RECV, Const, Event, Sym, vrepr
 from . import provrun
-from .base import get_ctx, immutable_reprs, pmap, walk_own, wkey
+from .base import get_ctx, immutable_reprs, pmap, walk_own, wkey, is_imm
 
 META = {
     "assumptions": ["user callbacks do not mutate library-visible state themselves",
@@ -49,7 +49,7 @@ def g_worker(task):
     viols = []
     for p in r["paths"]:
         for e in p["trace"]:
-            if e[0] == "W" and e[2] not in p["imm"]:
+            if e[0] == "W" and not is_imm(e[2], p["imm"]):
                 viols.append({"key": wkey(ctx.p, "C07.G", e), "site": e[-1], "how": e[1], "target": e[2],
                               "path": p["desc"], "ends": p["kind"] + (":" + p["exc"][0] if p["exc"] else "")})
     r["viols"] = viols
@@ -63,7 +63,7 @@ def ct_worker(task):
     viols, raises = [], []
     for p in r["paths"]:
         for e in p["trace"]:
-            if e[0] == "W" and e[2] not in p["imm"]:
+            if e[0] == "W" and not is_imm(e[2], p["imm"]):
                 viols.append({"key": wkey(ctx.p, "C07.C", e), "site": e[-1], "how": e[1], "target": e[2],
                               "path": p["desc"]})
         if p["kind"] == "exc" and p["exc"][0] == "FrozenInstanceError":
